@@ -34,7 +34,7 @@ type Step struct {
 }
 
 type ReqOp struct {
-	Kind    string // req | adv | getbyid | delete | damaged
+	Kind    string // req | adv | getbyid | delete | damaged | getfault
 	Client  int    `json:",omitempty"`
 	Present string `json:",omitempty"` // own | none | forged | stale | other
 	Pick    int    `json:",omitempty"` // index into the stale list / other client
@@ -232,6 +232,40 @@ func check(c Case) vk.Verdict {
 		switch op.Kind {
 		case "adv":
 			vk.Advance(uint32(op.Dt))
+			continue
+		case "getfault":
+			// The storage fails the lookup of a request that presents the id of a live session. Whatever that request is
+			// told (an error, a 5xx), it is not given another session: no other id is issued to it, and the session is
+			// there, unchanged, for the next request.
+			id := cred[op.Client]
+			if st == nil || id == "" || live(id) == nil {
+				continue
+			}
+			st.FailNextGet()
+			script, doSave = nil, true
+			ctrBefore := ctr
+			var resp *fasthttp.RequestCtx
+			func() {
+				defer func() { _ = recover() }() // (the session middleware panics when the store reports an error)
+				switch c.Source {
+				case "cookie":
+					resp = vk.Do(app, "GET", "/", "Cookie", sessName+"="+id)
+				case "header":
+					resp = vk.Do(app, "GET", "/", sessName, id)
+				default:
+					resp = vk.Do(app, "GET", "/?"+sessName+"="+id)
+				}
+			}()
+			handlerErr = ""
+			if ctr != ctrBefore {
+				return vk.Failf("op %d: the storage failed the lookup for client %d presenting its live session %q: the request was given a newly generated session id instead of an error", i, op.Client, id)
+			}
+			if resp != nil {
+				if sc := string(resp.Response.Header.Peek("Set-Cookie")) + string(resp.Response.Header.Peek(sessName)); strings.Contains(sc, "srv-") && !strings.Contains(sc, id) {
+					return vk.Failf("op %d: the storage failed the lookup for client %d presenting its live session %q: the response hands out another id (%q)", i, op.Client, id, sc)
+				}
+			}
+			v.Classes = append(v.Classes, "storage-lookup-fault")
 			continue
 		case "damaged":
 			// The storage holds a record that cannot be decoded to the end (bytes in front of a copy of somebody's record),
@@ -542,7 +576,7 @@ func genCase(t *rapid.T) Case {
 			c.Ops = append(c.Ops, ReqOp{Kind: "getbyid", Client: rapid.IntRange(0, 2).Draw(t, "client"), Present: rapid.SampledFrom([]string{"own", "own", "stale", "forged"}).Draw(t, "which"), Pick: rapid.IntRange(0, 5).Draw(t, "pick"),
 				Save: rapid.IntRange(0, 2).Draw(t, "gsave") == 0})
 		case k == 3 && rapid.Bool().Draw(t, "dmg"):
-			c.Ops = append(c.Ops, ReqOp{Kind: "damaged", Client: rapid.IntRange(0, 2).Draw(t, "client")})
+			c.Ops = append(c.Ops, ReqOp{Kind: rapid.SampledFrom([]string{"damaged", "getfault"}).Draw(t, "faultkind"), Client: rapid.IntRange(0, 2).Draw(t, "client")})
 		case k == 3:
 			c.Ops = append(c.Ops, ReqOp{Kind: "delete", Client: rapid.IntRange(0, 2).Draw(t, "client"), Present: "own"})
 		default:
